@@ -243,19 +243,26 @@ Proof.
   apply (conflict_free ms d m r Hfree Hm). rewrite Hb. exact Hr.
 Qed.
 
-Theorem run_from_k : forall o ms k d,
-  ascending ms = true -> at_version k d = true -> id_conflict ms d = false ->
+Lemma ids_ok_spec : forall ms d, ids_ok ms d = true ->
+  forall m, In m ms -> id_check (decode_ids (db_rows (bootstrap d))) m = None.
+Proof.
+  intros ms d H m Hm. unfold ids_ok in H. rewrite forallb_forall in H. specialize (H m Hm).
+  destruct (id_check (decode_ids (db_rows (bootstrap d))) m); [discriminate|reflexivity].
+Qed.
+
+Theorem run_from_k_gen : forall o ms k d,
+  ascending ms = true -> at_version k d = true -> ids_ok ms d = true ->
   fst (run [] o ms d) = advanced o (pending k ms) d /\
   i_res (snd (run [] o ms d)) = Some ROk /\
   i_log (snd (run [] o ms d)) = prelude_log o d ++ block_evs o (pending k ms) ++ [ECommit true].
 Proof.
-  intros o ms k d Hasc Hat Hfree. unfold run, run_from.
+  intros o ms k d Hasc Hat Hok. unfold run, run_from.
   destruct (prelude_ok o k d Hat) as [rows [Hb [Hw Hp]]]. rewrite Hp. simpl snd. cbv beta iota.
   simpl i_res. cbv iota. simpl i_ver. simpl i_ids.
   destruct (plan_run o k (decode_ids rows) ms (bootstrap d) rows
               (mkInst None true (Some (bootstrap d)) Shared k (decode_ids rows) (prelude_log o d) 5) (bootstrap d)) as [n Hn].
   - exact Hasc.
-  - exact (free_id_checks ms k d rows Hat Hb Hw Hfree).
+  - intros m Hm. pose proof (ids_ok_spec ms d Hok m Hm) as H. rewrite Hb in H. exact H.
   - intros m r _ Hv Hr. pose proof (rows_within_In _ _ _ Hw Hr). apply N.ltb_lt in Hv. lia.
   - reflexivity.
   - reflexivity.
@@ -265,6 +272,20 @@ Proof.
     destruct (pending k ms); simpl; [|reflexivity].
     unfold stmts_all; simpl. rewrite !app_nil_r. reflexivity.
 Qed.
+
+Lemma free_ids_ok : forall ms k d, at_version k d = true -> id_conflict ms d = false -> ids_ok ms d = true.
+Proof.
+  intros ms k d Hat Hfree. destruct (prelude_ok (mkOpts Sqlite "" None false) k d Hat) as [rows [Hb [Hw _]]].
+  unfold ids_ok. rewrite forallb_forall. intros m Hm.
+  rewrite Hb. unfold db_rows; simpl. rewrite (free_id_checks ms k d rows Hat Hb Hw Hfree m Hm). reflexivity.
+Qed.
+
+Theorem run_from_k : forall o ms k d,
+  ascending ms = true -> at_version k d = true -> id_conflict ms d = false ->
+  fst (run [] o ms d) = advanced o (pending k ms) d /\
+  i_res (snd (run [] o ms d)) = Some ROk /\
+  i_log (snd (run [] o ms d)) = prelude_log o d ++ block_evs o (pending k ms) ++ [ECommit true].
+Proof. intros o ms k d Ha Hk Hf. apply run_from_k_gen; [exact Ha|exact Hk|eapply free_ids_ok; eassumption]. Qed.
 
 Lemma txn_execs_app : forall a b, txn_execs (a ++ b) = txn_execs a ++ txn_execs b.
 Proof. intros a b. unfold txn_execs. rewrite map_app, concat_app. reflexivity. Qed.
@@ -845,4 +866,74 @@ Proof.
       destruct (run_calls_db [] o l f c i (plan_instrs _ _ _ _)) as [H|H] end.
     + right; right; left. exact H.
     + right; right; right. rewrite H. reflexivity.
+Qed.
+
+(* ---------- a run whose id comparison fails somewhere commits nothing and never returns Ok ---------- *)
+Lemma exec_ok_only_commit : forall F o oth x c i,
+  i_res i = None -> i_res (snd (exec F o oth x c i)) = Some ROk -> x = ICommit.
+Proof.
+  intros F o oth x c i Hi H. destruct x; try reflexivity; exfalso;
+    unfold exec, acquire_reserved, acquire_shared in H;
+    repeat match type of H with
+           | context [if ?b then _ else _] => destruct b; simpl in H
+           | context [match ?e with _ => _ end] => destruct e; simpl in H
+           end; try discriminate; try (rewrite Hi in H; discriminate).
+Qed.
+
+Lemma plan_no_commit : forall o ver ids ms,
+  (exists m, In m ms /\ id_check ids m <> None) -> ~ In ICommit (plan o ver ids ms).
+Proof.
+  intros o ver ids ms. induction ms as [|m ms IH]; intros [m0 [Hm0 Hne]] Hin; [destruct Hm0|].
+  simpl in Hin. destruct (id_check ids m) eqn:E.
+  - destruct Hin as [Hin|[]]. discriminate.
+  - assert (Hex : exists m1, In m1 ms /\ id_check ids m1 <> None).
+    { destruct Hm0 as [<-|Hm0]; [exfalso; apply Hne; exact E|]. exists m0. split; assumption. }
+    destruct (N.ltb ver (m_version m)); [|apply (IH Hex Hin)].
+    apply in_app_or in Hin. destruct Hin as [Hin|[Hin|Hin]].
+    + apply in_map_iff in Hin. destruct Hin as [s [Hs _]]. discriminate.
+    + discriminate.
+    + apply (IH Hex Hin).
+Qed.
+
+Lemma run_list_no_commit : forall F o oth l c i,
+  ~ In ICommit l -> (forall x, In x l -> x <> ICreate /\ x <> IAlter) -> i_res i <> Some ROk ->
+  fst (run_list F o oth l (c, i)) = c /\ i_res (snd (run_list F o oth l (c, i))) <> Some ROk.
+Proof.
+  intros F o oth l. induction l as [|x l IH]; intros c i Hnc Hl Hi; simpl; [split; [reflexivity|exact Hi]|].
+  destruct (i_res i) eqn:E; [split; [reflexivity|simpl; rewrite E; exact Hi]|].
+  assert (Hx : x <> ICommit) by (intros ->; apply Hnc; left; reflexivity).
+  destruct (Hl x (or_introl eq_refl)) as [Hc Ha].
+  destruct (exec_db F o oth x c i) as [H|[[H _]|[[H _]|[H _]]]]; try contradiction.
+  destruct (exec F o oth x c i) as [c1 i1] eqn:Ex. simpl in H. subst c1.
+  apply IH.
+  - intros Hin. apply Hnc. right. exact Hin.
+  - intros y Hy. apply Hl. right. exact Hy.
+  - intros Hok. apply Hx. apply (exec_ok_only_commit F o oth x c i E). rewrite Ex. exact Hok.
+Qed.
+
+Lemma ids_not_ok_ex : forall ms d, ids_ok ms d = false ->
+  exists m, In m ms /\ id_check (decode_ids (db_rows (bootstrap d))) m <> None.
+Proof.
+  intros ms d H. unfold ids_ok in H.
+  induction ms as [|m ms IH]; simpl in H; [discriminate|].
+  destruct (id_check (decode_ids (db_rows (bootstrap d))) m) eqn:E.
+  - exists m. split; [left; reflexivity|]. rewrite E. discriminate.
+  - simpl in H. destruct (IH H) as [m0 [A B]]. exists m0. split; [right; exact A|exact B].
+Qed.
+
+Lemma ids_ok_create : forall ms d, ids_ok ms (sql_create_vt d) = ids_ok ms d.
+Proof. intros. unfold ids_ok. rewrite bootstrap_create. reflexivity. Qed.
+Lemma ids_ok_bootstrap : forall ms d, ids_ok ms (bootstrap d) = ids_ok ms d.
+Proof. intros. unfold ids_ok. rewrite bootstrap_idem. reflexivity. Qed.
+
+(* alone, without faults: the two bookkeeping statements go through, then the block returns Err *)
+Theorem run_ids_not_ok : forall o ms d, ids_ok ms d = false ->
+  fst (run [] o ms d) = bootstrap d /\ i_res (snd (run [] o ms d)) <> Some ROk.
+Proof.
+  intros o ms d H. unfold run, run_from. rewrite prelude_nofault. simpl snd. simpl i_res. cbv iota.
+  simpl i_ver. simpl i_ids.
+  apply run_list_no_commit.
+  - apply plan_no_commit. exact (ids_not_ok_ex ms d H).
+  - apply plan_instrs.
+  - simpl. discriminate.
 Qed.
